@@ -97,6 +97,29 @@ Fixpoint count_call (reg : Z -> bool) (evs : list pev) (f : Z) : Z :=
   | _ :: t => count_call reg t f
   end.
 
+(* ---- the wrappers' enable/disable windows --------------------------------------------- *)
+(* A decorated function is not traced all the time: its wrapper switches the profiler
+   on (enable_by_count) before every activation segment - the call of a function, every
+   resumption of a generator including the one that delivers close()/throw() - and off
+   after it.  `wrap` is that glue; the windowed profiler only sees events while the
+   count is positive. *)
+Inductive wev := WE (e : pev) | WEnable | WDisable.
+Definition wrap (reg : Z -> bool) (evs : list pev) : list wev :=
+  flat_map (fun e => match e with
+                     | PCall f => if reg f then [WEnable; WE e] else [WE e]
+                     | PRet f => if reg f then [WE e; WDisable] else [WE e]
+                     | PLine _ _ => [WE e]
+                     end) evs.
+Definition wstep (reg : Z -> bool) (s : nat * pst) (w : wev) : nat * pst :=
+  match w with
+  | WEnable => (S (fst s), snd s)
+  | WDisable => (pred (fst s), snd s)
+  | WE e => match fst s with O => s | S _ => (fst s, prof_step reg (snd s) e) end
+  end.
+Definition wprof_run (reg : Z -> bool) (s : nat * pst) (ws : list wev) : nat * pst := fold_left (wstep reg) ws s.
+(* registered activations on the stack *)
+Definition nreg (reg : Z -> bool) (s : list Z) : nat := length (filter reg s).
+
 (* ---- effects, statements, interpreter --------------------------------------------- *)
 Inductive outcome := ONormal | ORaised (k : kind) | OIOError.
 
@@ -126,9 +149,23 @@ Inductive stmt :=
 | SPrint (e : eff)        (* print(...) to sys.stdout *)
 | SFlush                  (* sys.stdout.flush() *)
 | SProgram
+| SProgramT (ticks : list nat) (tfile : string)   (* the program, with the -i timer thread dumping to tfile
+                                                     after each of the given numbers of further events *)
 | SSeq (a b : stmt)
 | STry (body : stmt) (catch : kind -> bool) (handler : stmt)
 | SFinally (body fin : stmt).
+
+(* the program's events with periodic dumps in between: each dump writes a snapshot
+   of the profiler state at that moment *)
+Fixpoint prog_trace (tfile : string) (reg : Z -> bool) (st : pst) (stream : list pev) (ticks : list nat)
+  : list eff * pst :=
+  match ticks with
+  | [] => (map FProg stream, prof_run reg st stream)
+  | n :: t =>
+      let st1 := prof_run reg st (firstn n stream) in
+      let '(tr, st2) := prog_trace tfile reg st1 (skipn n stream) t in
+      (map FProg (firstn n stream) ++ FDump tfile st1 :: tr, st2)
+  end.
 
 Section Exec.
   Variable stream : list pev.     (* the events the program executes before it ends *)
@@ -154,6 +191,8 @@ Section Exec.
                 | _ => ([FIOFails], OIOError, st)
                 end
     | SProgram => (map FProg stream ++ raise_eff, program_outcome, prof_run reg st stream)
+    | SProgramT ticks tfile =>
+        let '(t, s') := prog_trace tfile reg st stream ticks in (t ++ raise_eff, program_outcome, s')
     | SSeq a b =>
         let '(t1, o1, s1) := exec a st in
         match o1 with
@@ -185,14 +224,19 @@ End Exec.
          prof.dump_stats(options.outfile); print('Wrote ...'); <inspect hint>;
          <the global @profile is handed back: FUninstall> *)
 Definition absorbed (k : kind) : bool := match k with KKbdInt | KSysExit => true | _ => false end.
-Definition kern_main (ctx timed : bool) (outfile : string) : stmt :=
+Definition kern_main_gen (prog : stmt) (ctx timed : bool) (outfile : string) : stmt :=
   SSeq (SEff FInstall)
        (SFinally
-          (STry (if ctx then SFinally (SSeq (SEff FEnable) SProgram) (SEff FDisable) else SProgram)
+          (STry (if ctx then SFinally (SSeq (SEff FEnable) prog) (SEff FDisable) else prog)
                 absorbed SSkip)
           (SSeq (if timed then SEff FTimerStop else SSkip)
                 (SSeq (SDump outfile)
                       (SSeq (SPrint (FWrote outfile)) (SSeq (SPrint FInspect) (SEff FUninstall)))))).
+
+Definition kern_main (ctx timed : bool) (outfile : string) : stmt := kern_main_gen SProgram ctx timed outfile.
+(* with -i: a RepeatedTimer thread dumps to the same outfile while the program runs *)
+Definition kern_main_ticks (ticks : list nat) (ctx : bool) (outfile : string) : stmt :=
+  kern_main_gen (SProgramT ticks outfile) ctx true outfile.
 
 (* a variant that is NOT the code: the finally block starts by flushing the
    program's stdout (used to state what the order of the real block buys) *)
@@ -209,6 +253,9 @@ Definition kern_main_flush_first (ctx timed : bool) (outfile : string) : stmt :=
 Definition kern_run (stream : list pev) (kd : kind) (reg : Z -> bool) (out : ostate)
            (ctx timed : bool) (outfile : string) :=
   exec stream kd reg out (kern_main ctx timed outfile) pst0.
+Definition kern_run_ticks (stream : list pev) (kd : kind) (reg : Z -> bool) (out : ostate)
+           (ticks : list nat) (ctx : bool) (outfile : string) :=
+  exec stream kd reg out (kern_main_ticks ticks ctx outfile) pst0.
 
 (* exit status of the kernprof process.  A CPython artifact is part of it: runctx
    runs the program through exec() of a STRING, and the interpreter marks a
@@ -236,6 +283,8 @@ Fixpoint dumped_state (tr : list eff) : option (string * pst) :=
   | FDump o s :: _ => Some (o, s)
   | _ :: t => dumped_state t
   end.
+(* what the file holds in the end: the state written by the LAST dump *)
+Definition last_dump (tr : list eff) : option (string * pst) := dumped_state (rev tr).
 Definition program_events (tr : list eff) : list pev :=
   flat_map (fun e => match e with FProg p => [p] | _ => [] end) tr.
 
@@ -309,16 +358,19 @@ Definition prefix_unwind_ok (trig : Z) (full ex : list pev) (k : kind) (m : Z) :
    interrupted, ex = the oracle's stream of the interrupted run, m = the length of
    their common prefix after strip_lines (m < 0: the program has finally blocks, whose lines run during
    the unwinding, so only well-nestedness and closedness are checked); cprofile selects which counter the written file holds. *)
-Definition kern_case_ok (trig : Z) (full ex : list pev) (m : Z) (kd : Z) (outc : Z) (regl : list Z) (ctx cprofile : bool)
+Definition kern_case_ok (trig : Z) (full ex : list pev) (m : Z) (kd : Z) (outc : Z) (tick : Z) (regl : list Z) (ctx cprofile : bool)
            (impl_hits : list (Z * Z * Z)) (impl_calls : list (Z * Z)) (impl_rc : Z) (impl_dumps : Z)
   : bool * bool * bool :=
   let k := match kd with 0 => KReturn | 1 => KSysExit | 2 => KKbdInt | _ => KExc end in
   let reg := reg_of regl in
-  let '(tr, oc, _) := kern_run ex k reg (ostate_of outc) ctx false "out" in
-  let snap := match dumped_state tr with Some (_, s) => s | None => pst0 end in
+  (* tick >= 0: run with -i, a periodic dump happened after that many events *)
+  let '(tr, oc, _) := if tick <? 0 then kern_run ex k reg (ostate_of outc) ctx false "out"
+                      else kern_run_ticks ex k reg (ostate_of outc) [Z.to_nat tick] ctx "out" in
+  let snap := match last_dump tr with Some (_, s) => s | None => pst0 end in
+  let cmp_dumps := if tick <? 0 then impl_dumps else impl_dumps + 1 in   (* + the periodic dump *)
   ((* model = implementation *)
    (if cprofile then calls_agree (p_calls snap) ex impl_calls else hits_agree (p_hits snap) ex impl_hits)
-   && (kern_exit ctx k oc =? impl_rc) && (count_eff is_dump tr =? impl_dumps),
+   && (kern_exit ctx k oc =? impl_rc) && (count_eff is_dump tr =? cmp_dumps),
    (* the environment assumption: the interrupted run is the prefix plus unwinding *)
    prefix_unwind_ok trig full ex k m,
    (* the property on the implementation's own output: one complete file holding
